@@ -1,4 +1,4 @@
-"""./check selftest [seeds]: demonstrate that the specifications are bound to the code.
+"""./check selftest [seeds] [benign]: demonstrate that the specifications are bound to the code.
 
  1. trace corruption: recorded traces of real runs with one field changed / one event dropped / a wrong exit status must be
     rejected by the trace specifications, with the right clause where the specification names one;
@@ -110,8 +110,36 @@ def run(args):
     ok &= v == [True, False, False, False]
     if 'seeds' in args:
         ok &= seeds()
+    if 'benign' in args:
+        ok &= benign()
     print('SELFTEST', 'PASSED' if ok else 'FAILED')
     return 0 if ok else 1
+
+
+def benign():
+    """Every harmless change in /verif/benign (property-preserving refactorings, rewordings, debug output, ...) applied to a scratch
+    copy of the repository: the check of its property must stay quiet (exit 0)."""
+    ok = True
+    root = os.path.join(common.ROOT, 'benign')
+    for bid in sorted(os.listdir(root)) if os.path.isdir(root) else []:
+        d = os.path.join(root, bid)
+        chk = bid.split('-')[0]
+        tmp = tempfile.mkdtemp(prefix='vben-')
+        try:
+            repo = os.path.join(tmp, 'repo')
+            subprocess.run(['git', 'clone', '-q', '--no-hardlinks', '/repo', repo], check=True)
+            a = subprocess.run(['git', 'apply', os.path.join(d, 'patch.diff')], cwd=repo)
+            if a.returncode != 0:
+                print('benign %-10s patch no longer applies (skipped)' % bid)
+                continue
+            env = dict(os.environ, VERIF_REPO=repo, VERIF_NO_EVIDENCE='1')
+            p = subprocess.run([os.path.join(common.ROOT, 'check'), chk, 'quick'], cwd=common.ROOT, env=env, stdout=subprocess.PIPE, stderr=subprocess.STDOUT, text=True)
+            quiet = p.returncode == 0
+            print('benign %-10s %s under %s' % (bid, 'quiet' if quiet else 'ALARM (exit %d)' % p.returncode, chk))
+            ok &= quiet
+        finally:
+            shutil.rmtree(tmp, ignore_errors=True)
+    return ok
 
 
 def seeds():
